@@ -194,6 +194,28 @@ impl<'c, KD: Kind, const N: usize> MapEng<'c, KD, N> {
                 }
             }
             slot.model.clear();
+            if end == 2 && !liar {
+                // The drain was forgotten, its destructor never ran. What the statement promises
+                // about the container then: nothing that was handed out is still stored, and
+                // whatever is still stored is an entry that was not handed out (unchanged). How
+                // many of the remaining entries stay is the implementation's business.
+                let post = Self::observe(&slot.c).unwrap_or_default();
+                let owners = P10.and(Prop::C01).and(Prop::C02);
+                for o in &post {
+                    let handed_out = yielded.iter().any(|y| y.raw == o.raw as i16);
+                    cx.chk(owners, !handed_out, "forgotten-drain", || format!("key {} was yielded by the drain and is still stored in the map after the drain was forgotten", o.raw));
+                    match before.get(&o.raw) {
+                        Some(e) if !handed_out => {
+                            cx.chk(owners, e.val == o.val && (!KD::IDENT || (e.kid == o.kid && e.vid == o.vid)), "forgotten-drain", || format!("key {} is stored with a different value or object after a forgotten drain", o.raw));
+                            slot.model.insert(o.raw, *e);
+                        }
+                        Some(_) => {}
+                        None => {
+                            cx.chk(owners, false, "forgotten-drain", || format!("key {} is stored after a forgotten drain but the map did not hold it", o.raw));
+                        }
+                    }
+                }
+            }
             slot.drained_at_step = Some(step);
             cx.bump(S::mutations);
             self.groups |= 8;
